@@ -160,6 +160,59 @@ def add_random_gate(qc, rng, n, log, allow3=True, max_multi=None, counter=None):
         getattr(qc, g)(*[int(x) for x in qs]); log.append([g] + [int(x) for x in qs]); counter[0] += 1
 
 
+class ConversionTimeout(BaseException):
+    pass
+
+
+class conversion_watchdog:  # noqa: N801
+    """Interrupts a conversion that does not return (SIGALRM; the converter is pure Python)."""
+
+    def __init__(self, seconds):
+        self.seconds = seconds
+
+    def _fire(self, *_a):
+        raise ConversionTimeout
+
+    def __enter__(self):
+        import signal
+        self.old = signal.signal(signal.SIGALRM, self._fire)
+        signal.alarm(self.seconds)
+
+    def __exit__(self, *exc):
+        import signal
+        signal.alarm(0)
+        signal.signal(signal.SIGALRM, self.old)
+        return False
+
+
+def presentation(qc, rng):
+    """The same qiskit circuit (same qubits in the same circuit order, same instructions) declared in another of the
+    ways qiskit offers: one register (as built), several quantum registers, loose qubits without a register, or with an
+    additional (unused) classical register. The converter's contract is in terms of the circuit's qubit order."""
+    from qiskit import ClassicalRegister, QuantumCircuit, QuantumRegister
+    from qiskit.circuit import Qubit
+    n = qc.num_qubits
+    how = str(rng.choice(["one_register"] * 5 + ["several_registers", "several_registers", "loose_qubits",
+                                                   "classical_register", "named_register"]))
+    if how == "one_register" or (how == "several_registers" and n < 2):
+        return qc, "one_register"
+    if how == "several_registers":
+        k = int(rng.integers(2, min(n, 3) + 1))
+        cuts = sorted(int(x) for x in rng.choice(np.arange(1, n), size=k - 1, replace=False))
+        sizes = [b - a for a, b in zip([0] + cuts, cuts + [n])]
+        new = QuantumCircuit(*[QuantumRegister(sz, "r%d" % i) for i, sz in enumerate(sizes)])
+        how += " " + str(sizes)
+    elif how == "loose_qubits":
+        new = QuantumCircuit([Qubit() for _ in range(n)])
+    elif how == "classical_register":
+        new = QuantumCircuit(QuantumRegister(n, "q"), ClassicalRegister(max(1, n - 1), "c"))
+    else:
+        new = QuantumCircuit(QuantumRegister(n, "data"))
+    for inst in qc.data:
+        new.append(inst.operation, [new.qubits[qc.find_bit(q).index] for q in inst.qubits])
+    return new, how
+
+
 def run(ctx):
     lw = setup(ctx, warm=False)
     install(lw)
@@ -275,15 +328,23 @@ def run(ctx):
             allow = bool(rng.random() < 0.5)
         if any(g[0] == "swap" for g in log):
             ctx.bucket("swap_gate")
+        qc, presented = presentation(qc, rng)
+        ctx.bucket("qiskit_circuit_presented_as:" + presented.split(" ")[0])
         if ROT_NEAR[0]:
             ctx.bucket("rotation_angle_near_special_value", ROT_NEAR[0])
             ROT_NEAR[0] = 0
         ctx.bucket("allow_ps_true" if allow else "allow_ps_false")
-        case = {"qubits": n, "gates": log, "allow_post_selection": allow}
+        case = {"qubits": n, "gates": log, "allow_post_selection": allow, "qiskit_circuit_presented_as": presented}
         try:
-            circuit, rules = conv(qc, allow_post_selection=allow)
+            with conversion_watchdog(10):
+                circuit, rules = conv(qc, allow_post_selection=allow)
             if rules is not None:
                 ctx.bucket("post_selection_rules_returned")
+        except ConversionTimeout:
+            # neither a conversion nor a refusal within 10 s of pure-Python work that normally takes milliseconds: recorded,
+            # not judged (no finite wait decides 'never returns'); the run continues with the next circuit
+            ctx.count("conversion_did_not_return_within_10s")
+            reused = {True: QiskitConverter(True), False: QiskitConverter(False)}
         except Exception as e:  # noqa: BLE001
             nm = type(e).__name__
             if nm in ("ValueError", "LightworksError"):
